@@ -3,6 +3,7 @@
 From Verif Require Import Base.Prelude Gen.Constants Model.Tdc Proofs.Tdc.
 From Verif Require Model.Lazy Proofs.Lazy.
 From Verif Require Model.Reuse Proofs.Reuse.
+From Verif Require Model.PPool Proofs.PPool.
 Open Scope N_scope.
 
 (** In every reachable state the two counters are exact: [reserved] is the
@@ -122,3 +123,51 @@ Theorem c09_reuse_one_query_per_conn ls s n :
   xrun xinit ls = Some s -> xenv xinit ls -> xout (conns s n) <= 1.
 Proof. exact (reuse_one_query_per_conn ls s n). Qed.
 Print Assumptions c09_reuse_one_query_per_conn.
+
+(** * The pipeline transport's connection pool (pipeline.go getReservedExchanger; Model.PPool)
+
+    A reservation on a new connection (the only case in which the attempt counts as "new"): the
+    connection did not exist, no connection that was asked admitted the query, and either every pooled
+    connection was asked or more than the bound refused — the transport opens a connection instead of
+    putting a query on one without room. Holds in every reachable state of the pool. *)
+Import Model.PPool Proofs.PPool.
+Theorem c09_pool_opens_new_only_when_none_admits ls s vs f s1 n :
+  prun pinit ls = Some s ->
+  pstep s (PGet vs f) = Some (s1, Some (PoConn n true)) ->
+  n = pt_next s /\ ~ In n (pt_pool s) /\ In n (pt_pool s1)
+  /\ (forall m r, In (m, r) vs -> r <> RAdmit)
+  /\ ((forall m, In m (pt_pool s) -> exists r, In (m, r) vs /\ r <> RAdmit)
+      \/ pipeline_max_reserve_attempt < N.of_nat (length vs)).
+Proof. intros Hr. exact (pool_get_new s vs f s1 n (poolinv_run ls pinit s poolinv_init Hr)). Qed.
+Print Assumptions c09_pool_opens_new_only_when_none_admits.
+
+(** A reservation on a pooled connection is made on one that admitted it (never on one that answered
+    "full" or "closed"), and that connection stays pooled. *)
+Theorem c09_pool_reuses_only_admitting s vs f s1 n :
+  pstep s (PGet vs f) = Some (s1, Some (PoConn n false)) ->
+  In n (pt_pool s) /\ In (n, RAdmit) vs /\ In n (pt_pool s1)
+  /\ (forall m r, In (m, r) vs -> r = RAdmit -> m = n) /\ pt_next s1 = pt_next s.
+Proof. exact (pool_get_reused s vs f s1 n). Qed.
+Print Assumptions c09_pool_reuses_only_admitting.
+
+(** Capacity is never thrown away: only connections that reported themselves closed leave the pool,
+    and those do leave it. *)
+Theorem c09_pool_keeps_live_connections ls s vs f s1 o m :
+  prun pinit ls = Some s -> pstep s (PGet vs f) = Some (s1, o) ->
+  (In m (pt_pool s) -> ~ In (m, RClosed) vs -> In m (pt_pool s1))
+  /\ (In (m, RClosed) vs -> ~ In m (pt_pool s1)).
+Proof.
+  intros Hr Hs. split.
+  - exact (pool_only_closed_removed s vs f s1 o m Hs).
+  - exact (pool_closed_removed s vs f s1 o m (poolinv_run ls pinit s poolinv_init Hr) Hs).
+Qed.
+Print Assumptions c09_pool_keeps_live_connections.
+
+(** Non-vacuity: two full connections and a closed one — the closed one is dropped, a third is opened. *)
+Example c09_pool_nonvacuous :
+  match prun pinit [PGet [] true; PGet [(0%nat, RFull)] true] with
+  | Some s => pstep s (PGet [(1%nat, RClosed); (0%nat, RFull)] true)
+              = Some (mkPS false 3 [2%nat; 0%nat], Some (PoConn 2 true))
+  | None => False
+  end.
+Proof. vm_compute. reflexivity. Qed.
